@@ -125,7 +125,7 @@ for r in runs:
             continue
         for k, tr in enumerate(trs):
             traced.append((r, k, tr))
-    elif r.get("Trace") and not r.get("TimedOut"):
+    elif r.get("Trace") and not r.get("TimedOut") and r.get("Exit") in (0, 1):
         ck.violation("trace-missing", "run %s wrote no scheduler trace (hook H3 not active?)" % r["ID"], {"run": r}, no_input=True)
 shards = {}
 nshard = 8
@@ -137,12 +137,12 @@ for sh_i, items in shards.items():
     tabs = {}
     for i, r, k, tr in items:
         txt += T.coq_run("t%d" % i, tr, tabs)
-        txt += ("Definition V%d := Eval vm_compute in match t%d_tr with Some tr => (valid_trace unit unit t%d_gg t%d_cap tr, "
-                "first_reject unit unit false t%d_gg t%d_cap (ginit t%d_gg t%d_cap) tr 0) | None => (false, Some 0%%nat) end.\nPrint V%d.\n"
-                % (i, i, i, i, i, i, i, i, i))
+        txt += ("Definition V%d := Eval vm_compute in match t%d_tr with Some tr => valid_trace unit unit t%d_gg t%d_cap tr | None => false end.\nPrint V%d.\n"
+                % (i, i, i, i, i))
     files["traces%d" % sh_i] = txt
 results = ck.coq_cases_parallel(files, timeout=3000, jobs=nshard) if files else {}
 nvalid, events, shapes, inner_levels = 0, 0, set(), 0
+failing = []
 for sh_i, items in shards.items():
     rc, out = results["traces%d" % sh_i]
     for i, r, k, tr in items:
@@ -153,26 +153,40 @@ for sh_i, items in shards.items():
         if val is None:
             ck.violation("cases-eval", "trace file did not evaluate: " + out[-400:], {"log": out[-3000:]}, no_input=True)
             break
-        m = re.match(r"\((true|false), (None|Some (\d+))", val)
-        if m and m.group(1) == "true" and tr.complete:
+        if val == "true" and tr.complete:
             nvalid += 1
-            continue
-        idx = int(m.group(3)) if m and m.group(3) else None
-        ctx = tr.raw[max(0, (idx or 0) - 12):(idx or 0) + 3] if idx is not None else tr.raw[-15:]
-        what = ("the scheduler of run %s (GOMAXPROCS=%d, VERIF_YIELD=%d, %s) performed a step the model's transition relation does not allow"
-                % (r["ID"], r["GMP"], r["Yield"], " ".join(r["Patterns"])[:80]))
-        if idx is not None:
-            what += ": event %d `%s`" % (idx, tr.raw[idx] if idx < len(tr.raw) else "?")
-        elif not tr.complete:
-            what += ": the run did not complete"
         else:
-            what += ": " + val[:100]
-        ck.violation("trace-rejected:" + (tr.raw[idx].split(" ")[2] if idx is not None and idx < len(tr.raw) else "incomplete"), what,
-                     {"run": {x: r[x] for x in ("ID", "GMP", "Yield", "Patterns", "Format", "Tests")}, "rejected_event_index": idx,
-                      "events_before_and_after": ctx, "capacity": tr.cap,
-                      "graph_top": [{"id": j, "deps": n[0], "triggers": n[1], "pending": n[2], "failed": n[3], "name": n[4]} for j, n in enumerate(tr.top or [])],
-                      "replay": "GOMAXPROCS=%d VERIF_YIELD=%d VERIF_TRACE=/tmp/t staticcheck(-tags verif) %s in the generated module (seed %d)" % (r["GMP"], r["Yield"], " ".join(r["Patterns"]), ck.seed),
-                      "module_files": data["Files"]})
+            failing.append((i, r, k, tr))
+# second pass: where does a rejected trace leave the transition relation?
+files = {}
+for i, r, k, tr in failing[:16]:
+    files["reject%d" % i] = (T.HEADER + T.coq_run("t%d" % i, tr, {}) +
+        "Definition F%d := Eval vm_compute in match t%d_tr with Some tr => first_reject unit unit false t%d_gg t%d_cap (ginit t%d_gg t%d_cap) tr 0 | None => Some 0%%nat end.\nPrint F%d.\n"
+        % (i, i, i, i, i, i, i))
+results = ck.coq_cases_parallel(files, timeout=3000, jobs=nshard) if files else {}
+for i, r, k, tr in failing[:16]:
+    rc, out = results["reject%d" % i]
+    val = ck.printed_value(out, "F%d" % i) or ""
+    m = re.match(r"Some (\d+)", val)
+    idx = int(m.group(1)) if m else None
+    crashed = r.get("TimedOut") or r.get("Exit") not in (0, 1)
+    if idx is None and crashed:
+        continue        # a prefix of a run that crashed or hung (reported by the harness), every recorded step is legal
+    ctx = tr.raw[max(0, idx - 12):idx + 3] if idx is not None else tr.raw[-15:]
+    what = ("the scheduler of run %s (GOMAXPROCS=%d, VERIF_YIELD=%d, %s) performed a step the model's transition relation does not allow"
+            % (r["ID"], r["GMP"], r["Yield"], " ".join(r["Patterns"])[:80]))
+    if idx is not None:
+        what += ": event %d `%s`" % (idx, tr.raw[idx] if idx < len(tr.raw) else "?")
+    elif not tr.complete:
+        what += ": the recorded run did not complete"
+    else:
+        what += ": the final state is not accepted (a second handler for an action, or the semaphore exceeded its capacity)"
+    ck.violation("trace-rejected:" + (tr.raw[idx].split(" ")[2] if idx is not None and idx < len(tr.raw) else "incomplete"), what,
+                 {"run": {x: r[x] for x in ("ID", "GMP", "Yield", "Patterns", "Format", "Tests")}, "rejected_event_index": idx,
+                  "events_before_and_after": ctx, "capacity": tr.cap,
+                  "graph_top": [{"id": j, "deps": n[0], "triggers": n[1], "pending": n[2], "failed": n[3], "name": n[4]} for j, n in enumerate(tr.top or [])],
+                  "replay": "GOMAXPROCS=%d VERIF_YIELD=%d VERIF_TRACE=/tmp/t staticcheck(-tags verif) %s in the generated module (seed %d)" % (r["GMP"], r["Yield"], " ".join(r["Patterns"]), ck.seed),
+                  "module_files": data["Files"]})
 ck.log("traces: %d validated of %d (%d events, %d distinct schedules)" % (nvalid, len(traced), events, len(shapes)))
 
 # 5. the obligation of output_deterministic on the observed output: sorted by the regenerated key, key total
